@@ -461,3 +461,5 @@ REWRITES = [
             "        if nonce == self.next_receive_nonce:\n            self.next_receive_nonce += 1\n            record = self.receive_box.decrypt(encrypted)\n            return record\n        raise BadNonce(\"received out-of-order record\")", desc="== form of the guard"),
     Rewrite("handler-reorder", TR, "            self.transport.loseConnection()\n            self.state = \"hung up\"", "            self.state = \"hung up\"\n            self.transport.loseConnection()", desc="handler statements reordered"),
 ]
+
+MUTANTS.append(Mutant("receive-record-fast-path-truthy", TR, "    def receive_record(self):\n        d = defer.Deferred()", "    def receive_record(self):\n        record = (self._inbound_records.popleft()\n                  if self._inbound_records else None)\n        if record:\n            return defer.succeed(record)\n        d = defer.Deferred()", "C06.R7"))
